@@ -1689,9 +1689,11 @@ impl<'a, K: Hash + Eq, V, E: OnEvictCallback, S: BuildHasher> IntoIterator
 
 impl<K: Hash + Eq, V> FromIterator<(K, V)> for RawLRU<K, V> {
     fn from_iter<T: IntoIterator<Item = (K, V)>>(iter: T) -> Self {
-        let iter = iter.into_iter();
-        let mut this = Self::new(iter.size_hint().0).unwrap();
-        iter.for_each(|(k, v)| {
+        // the lower bound of size_hint() may be 0 (empty input, filtered iterators), which
+        // is not a valid capacity: size the cache by the number of items, at least 1
+        let items: Vec<(K, V)> = iter.into_iter().collect();
+        let mut this = Self::new(items.len().max(1)).unwrap();
+        items.into_iter().for_each(|(k, v)| {
             this.put(k, v);
         });
         this
